@@ -158,8 +158,25 @@ pub(crate) fn token_parts(t: &str) -> Option<(String, String, u64)> {
     let c = kvc(cl_s, ',', '=');
     let g = |k: &str| oi(&c, k);
     let mut vc = Map::new();
-    vc.insert("@context".into(), if m.get("ctx")? == "1" { json!("https://www.w3.org/2018/credentials/v1") } else { json!("https://e.x/other-context") });
-    vc.insert("type".into(), if m.get("typ")? == "1" { json!(["VerifiableCredential", "X"]) } else { json!("X") });
+    // ctx: 1 base context (alone), 3 base context first of two, 0 another context, 2 base context present but NOT first
+    vc.insert(
+      "@context".into(),
+      match m.get("ctx")?.as_str() {
+        "1" => json!("https://www.w3.org/2018/credentials/v1"),
+        "3" => json!(["https://www.w3.org/2018/credentials/v1", "https://e.x/other-context"]),
+        "2" => json!(["https://e.x/other-context", "https://www.w3.org/2018/credentials/v1"]),
+        _ => json!("https://e.x/other-context"),
+      },
+    );
+    // typ: 1 base type first, 3 base type last, 0 absent
+    vc.insert(
+      "type".into(),
+      match m.get("typ")?.as_str() {
+        "1" => json!(["VerifiableCredential", "X"]),
+        "3" => json!(["X", "VerifiableCredential"]),
+        _ => json!("X"),
+      },
+    );
     let mut subj = Map::new();
     if m.get("spe")? == "0" {
       subj.insert("degree".into(), json!("B"));
@@ -608,8 +625,8 @@ pub fn gen(thorough: bool, seed: u64, out: &mut impl Write) {
     }
   }
   // (f) structure facts, unparsable payload, issuer forms
-  for ctx in [0u8, 1] {
-    for typ in [0u8, 1] {
+  for ctx in [0u8, 1, 2, 3] {
+    for typ in [0u8, 1, 3] {
       for spe in [0u8, 1] {
         for iss in ["u1", "o1.4", "w1", "u2", "o2.1"] {
           let mut s = Sc::base();
@@ -670,8 +687,8 @@ pub fn gen(thorough: bool, seed: u64, out: &mut impl Write) {
       r.pick(&["~", "~", "1000", "999"]),
       r.pick(&["~", "~", "2", "3"])
     );
-    s.ctx = *r.pick(&[1, 1, 1, 0]);
-    s.typ = *r.pick(&[1, 1, 1, 0]);
+    s.ctx = *r.pick(&[1, 1, 1, 3, 0, 2]);
+    s.typ = *r.pick(&[1, 1, 1, 3, 0]);
     s.spe = *r.pick(&[0, 0, 1]);
     s.nt = r.pick(&["~", "0", "1"]).to_string();
     s.st = r.pick(&["~", "o", "b5", "b7", "m7.5", "a5"]).to_string();
